@@ -31,7 +31,8 @@ TRUSTED_BASE = [
 ]
 ASSUMPTIONS = [
     'adversary: only replies to requests already sent in the current fetch (any order, multiplicity, delay) and '
-    'packets on other channels; packets left over from an earlier connection are outside the theorem',
+    'packets on other channels and, in the extended-type phase, misc-channel packets of any other command for any id; '
+    'packets left over from an earlier connection are outside the theorem',
     'group and name are NUL-free ISO-8859-1 strings; for lookup by complete name they contain no "."',
     'device tables have pairwise distinct (group, name)',
 ]
@@ -42,7 +43,7 @@ PROVED = ('Element decoding is the inverse of the wire encoding for every type c
           'lookups by (group,name), by id and by complete name agree; after the extended-type phase the persistent '
           'marker is the device\'s.')
 NOT_PROVED = ('Thread interleavings inside _ExtendedTypeFetcher below the granularity "runs until blocked"; packets '
-              'of an earlier session; unsolicited MISC packets carrying the queried id during the extended phase; '
+              'of an earlier session; '
               'the extended-phase model marks every element with the answered id (code: the first), equal for distinct ids.')
 
 LOG_PORT, PARAM_PORT = 5, 2
@@ -696,6 +697,12 @@ def run_ext(case, choose=None):
                 ev = case['evs'][k]
                 k += 1
             ev = tuple(ev)
+            if ev[0] == 'M':
+                # misc-channel packet of ANOTHER command (value-updated notification, reply to a persistent/default
+                # request) carrying the id of the extended-type request in flight: must not be taken as its answer
+                reqs = cf.sent(PARAM_PORT, 3)
+                idb = bytes(reqs[-1][3][1:3]) if reqs else b'\0\0'
+                ev = ('R', 3, bytes([ev[1]]) + idb + bytes(ev[2]))
             evs.append(ev)
             if ev[0] == 'D':
                 reqs = cf.sent(PARAM_PORT, 3)
@@ -768,9 +775,13 @@ def ext_adversary(rng, n_ext, mode):
             return ('D', max(0, n_sent - 1))
         if r < 0.8:
             return ('D', rng.randrange(0, n_sent + 1))
-        if r < 0.9 or mode == 'dup':
+        if r < 0.87:
             return ('R', rng.choice([0, 1, 2]), bytes(rng.randrange(256) for _ in range(rng.randint(0, 6))))
-        return ('R', 3, bytes(rng.randrange(256) for _ in range(rng.choice([0, 1, 2, 3, 4, 6]))))
+        if r < 0.95 or mode == 'dup':
+            # other misc command for the id in flight; tail shaped like a value / status byte (often exactly 1 = "persistent")
+            return ('M', rng.choice([1, 1, 1, 0, 3, 4, 5, 6, 255]), rng.choice([b'\x01', b'\x01', b'', b'\x00', bytes(rng.randrange(256) for _ in range(rng.randint(1, 5)))]))
+        return ('R', 3, rng.choice([b'', b'\x02', b'\x02\x00', bytes(rng.randrange(256) for _ in range(rng.choice([1, 2, 3, 4, 6]))),
+                                    b'\x02' + bytes(rng.randrange(256) for _ in range(rng.choice([1, 2, 3])))]))
     return choose
 
 
@@ -1075,7 +1086,7 @@ def _mk_oracle_cases(ctx, deep):
         evs = []
         for _ in range(rng.randint(0, 2 * len(c['xdev']) + 2)):
             ev = ch(rng.randint(1, max(1, len(c['xdev']))), None)
-            if ev is None or (ev[0] == 'R' and ev[1] == 3):
+            if ev is None or (ev[0] == 'R' and ev[1] == 3):      # malformed extended-type packets: tie only
                 continue
             evs.append(list(ev[:2]) + ([list(ev[2])] if len(ev) > 2 else []))
         out.append({'kind': 'ext', 'items': c['items'], 'ids': c['ids'], 'xdev': {str(k): v for k, v in c['xdev'].items()}, 'evs': evs})
